@@ -159,7 +159,7 @@ func runC03(c *Ctx) {
 	//     plus a pointer; the packer must take the same decision as without compression and the unpacker must
 	//     read back what was written
 	for i := 0; i < c.Scale(400, 8000); i++ {
-		suffix := genLabelsNear(r, 0)
+		suffix := genLabelsNear(r, r.Intn(3)) // also labels whose spelling needs escapes: the limit counts octets, not characters
 		for len(wireOf(suffix)) > 200 {
 			suffix = suffix[1:]
 		}
